@@ -10,6 +10,8 @@ args = sys.argv[1:]
 binary = args.pop(0)
 allp = '--all' in args
 if allp: args.remove('--all')
+write = '--write' in args
+if write: args.remove('--write')
 extra = None
 if '--extra' in args:
     i = args.index('--extra'); extra = args[i+1]; del args[i:i+2]
@@ -56,9 +58,14 @@ def run(job):
     finally:
         shutil.rmtree(d, ignore_errors=True)
 bad = 0
+seedres, refres = {}, {}
 with ThreadPoolExecutor(14) as ex:
     for job, fired, err in ex.map(run, jobs):
         kind, name, target, _ = job
+        if kind == 'seed' and not name.startswith('x-'):
+            seedres[name] = {'target': target, 'fired': sorted(fired), 'caught_by_target': target in fired, 'detail': fired} if not err else {'error': err}
+        if kind == 'refactor' and not name.startswith('x-') and not name.startswith('retired-'):
+            refres[name] = {'fired': sorted(fired), 'detail': fired} if not err else {'error': err}
         if err:
             print(kind, name, err); bad += 1; continue
         if kind == 'seed' and target not in fired:
@@ -70,3 +77,10 @@ with ThreadPoolExecutor(14) as ex:
             for p, ls in fired.items():
                 for l in ls: print('     ', l)
 print('jobs %d, discrepancies %d' % (len(jobs), bad))
+
+if write and allp and not only:
+    json.dump(seedres, open('/verif/seeded/RESULTS.json', 'w'), indent=1, sort_keys=True)
+    json.dump(refres, open('/verif/refactors/RESULTS.json', 'w'), indent=1, sort_keys=True)
+    tot = len(seedres); caught = sum(1 for v in seedres.values() if v.get('fired')); own = sum(1 for v in seedres.values() if v.get('caught_by_target'))
+    print('seeds %d, caught by some check %d, caught by the targeted property check %d' % (tot, caught, own))
+    print('refactorings %d, false alarms on %d' % (len(refres), sum(1 for v in refres.values() if v.get('fired'))))
